@@ -17,14 +17,14 @@ RULE = (
     "inputs from four sources: (a) atheris/libFuzzer coverage-guided bytes -> UTF-8 -> query(), instrumenting aw_query, token dictionary, from an empty corpus and "
     "from corpus/c17 (the test-suite's queries); (b) Hypothesis text over the token alphabet ()[]{},:;='\"\\ letters digits whitespace unicode digits; (c) valid programs "
     "from the C11 grammar corrupted by 1..3 edits (delete/duplicate/swap/insert a character, drop or double a bracket or quote, blank an argument, strip a "
-    "separator); (d) typed corruptions with a known expected class (undefined variable, unknown function, too many/few arguments -> interpret error; wrong top-level "
+    "separator); (e) deeply nested programs (lists, dicts, calls nested 1..1500 deep, balanced or off by one bracket); (d) typed corruptions with a known expected class (undefined variable, unknown function, too many/few arguments -> interpret error; wrong top-level "
     "argument type, unknown bucket -> function error; unterminated string, empty right-hand side, assignment to a non-variable -> parse error). Oracle: under a 10 s "
     "alarm the outcome is a value or a QueryException; any other exception whose traceback does not pass through a q2_* built-in body, aw_transform or aw_datastore "
     "escaped from parsing or name/arity/type resolution -> violation (failures below a built-in are ill-typed *contents*, counted as excluded); for (d) the class "
     "must be the expected one. Non-trivial = the input has '=' with a non-empty right side (reaches a token scanner) and is not accepted by the reference parser."
 )
 ASSUMPTIONS = [
-    "inputs are at most 128 characters for the fuzzer, ~60 for random text; termination means 'returns within 10 s'",
+    "inputs are at most 128 characters for the fuzzer, ~60 for random text, up to ~15 000 characters for the deep-nesting source (the scanners are quadratic in the nesting depth, so far longer inputs can legitimately need more than the alarm); termination means 'returns within 10 s' (a miss is re-tried once with 60 s before it counts, so that a loaded machine cannot produce a verdict)",
     "exceptions raised below a built-in's own body (ill-typed list contents, bad regex) are outside the property",
     "each libFuzzer shard is bounded by -runs and by a wall-clock cap (-max_total_time; hitting it only ends the search, it is never a verdict); a shard stops at the first non-terminating input. libFuzzer campaigns are only approximately reproducible from a seed; the saved input is the reproducible unit and is re-confirmed by plain replay before it is reported",
 ]
@@ -91,7 +91,7 @@ def classify_exception(ex):
     return ("excluded" if below_builtin else "violation"), where
 
 
-def run_text(text):
+def run_text(text, timeout=None):
     """-> (status, detail): status in value | query_error:<Class> | excluded | violation | timeout"""
     from aw_query import query
     from aw_query.exceptions import QueryException
@@ -99,7 +99,7 @@ def run_text(text):
     ds = get_ds()
     start, end = gen.dt_utc(BASE_US - 10**9), gen.dt_utc(BASE_US + 10**9)
     old = signal.signal(signal.SIGALRM, _alarm)
-    signal.alarm(TIMEOUT_S)
+    signal.alarm(timeout or TIMEOUT_S)
     try:
         try:
             query("q", text, start, end, ds)
@@ -148,9 +148,11 @@ def judge(text, expect=None):
     if status == "violation":
         raise Violation(f"query {text!r}: {detail} escaped (not a QueryException)", key=bucket_of(detail))
     if status == "timeout":
-        s2, _ = run_text(text)  # confirm once
+        # a busy machine can make a slow-but-terminating input miss the alarm: confirm with six times the allowance
+        s2, _ = run_text(text, timeout=6 * TIMEOUT_S)
         if s2 == "timeout":
-            raise Violation(f"query {text!r} did not terminate within {TIMEOUT_S} s", key="timeout")
+            raise Violation(f"query {text[:300]!r}{'...' if len(text) > 300 else ''} ({len(text)} characters) did not terminate within {TIMEOUT_S} s, nor within {6 * TIMEOUT_S} s when tried again", key="timeout")
+        status = s2
     if expect is not None:
         if status != "query_error:" + expect:
             raise Violation(f"query {text!r}: expected {expect}, got {status} {detail}", key="wrong_class:" + expect)
@@ -165,7 +167,16 @@ ALPHA = list("()[]{},:;='\"\\ \n\tabcxyzRETURN_0123456789") + ["²", "٣", "𝟜
 
 @st.composite
 def strategy(draw, tier="quick"):
-    kind = draw(st.sampled_from(["text", "text", "corrupt", "corrupt", "corrupt", "typed"]))
+    kind = draw(st.sampled_from(["text", "text", "corrupt", "corrupt", "corrupt", "typed", "text", "text", "corrupt", "corrupt", "corrupt", "typed", "deep"]))
+    if kind == "deep":
+        # deeply nested (mostly valid) programs: the parser and interpreter are recursive
+        return {
+            "kind": "deep",
+            "open": draw(st.sampled_from(["[", "nop(", '{"a":', "concat([],", "[1,"])),
+            "n": draw(st.one_of(st.integers(1, 60), st.integers(60, 1500))),
+            "unbalanced": draw(st.sampled_from([0, 0, 0, 1, -1])),
+            "via_var": draw(st.booleans()),
+        }
     if kind == "text":
         parts = draw(st.lists(st.sampled_from(ALPHA), max_size=40))
         text = "".join(parts)
@@ -328,7 +339,18 @@ def known_key(case, v):
     return v.key
 
 
+def deep_text(c):
+    close = {"[": "]", "nop(": ")", '{"a":': "}", "concat([],": ")", "[1,": "]"}[c["open"]]
+    inner = {"[": "", "nop(": "", '{"a":': "1", "concat([],": "[]", "[1,": "2"}[c["open"]]
+    body = c["open"] * c["n"] + inner + close * max(0, c["n"] + c["unbalanced"])
+    if c["via_var"]:
+        return f"x={body};RETURN=[x,x]"
+    return "RETURN=" + body
+
+
 def case_text(case):
+    if case["kind"] == "deep":
+        return deep_text(case), None
     if case["kind"] == "text":
         return case["text"], None
     if case["kind"] == "corrupt":
